@@ -100,6 +100,11 @@ def run_property(prop, tier):
     seed = int(os.environ.get("VERIF_SEED", "0") or 0)
     mod = importlib.import_module(f"vflib.props.{prop.lower()}")
     parts = mod.parts(tier)
+    if tier == "thorough":
+        # the thorough tier contains every scenario of the quick tier: quick parts that have no thorough counterpart of the same name
+        # run as they are, next to the deeper ones
+        names = {p.name for p in parts}
+        parts = parts + [p for p in mod.parts("quick") if p.name not in names]
     if os.environ.get("VF_ONLY"):       # development aid: run only the named parts (evidence then describes a partial run)
         parts = [p for p in parts if p.name in os.environ["VF_ONLY"].split(",")]
     meta = mod.META
